@@ -31,6 +31,7 @@ from vf.common import HarnessError
 LEVEL = 'translation_validation'
 
 QUICK_LEAVES = ('pi', '2', '1e-1')
+QUICK_CORE = ('pi', '2')
 FULL_LEAVES = ('pi', '2', '0.5', '1e-1', '3')
 
 
@@ -52,7 +53,7 @@ def _warmup(libs: tuple) -> None:
     under test and the oracles import or build lazily on first use (Lark
     tables, Qiskit gate library, ply tables ...) is then inherited by every
     forked worker instead of being paid again in each of them."""
-    W.work(('e2', QUICK_LEAVES, 1, '^', 0, 9))
+    W.work(('e2', QUICK_LEAVES, 1, '^', 0, 9, None))
     W.work(('gd1', 0, 200))
     W.work(('shadow',))
     ops = [['CNOTGate', [0, 1], []], ['RXGate', [0], [0.3]]]
@@ -178,15 +179,25 @@ def _run(ctx: Ctx, total: dict, libs: tuple) -> None:
     failing = _stage(ctx, 'roundtrip-single-ops', tasks, total)
     excluded = tuple(failing)
     keys = W.rt_keys(excluded)
-    # two operations: 1 and 2 qubits always complete (both parameter
-    # variants); 3 qubits under a time cap (quick: generic parameters only)
+    # two operations on 1 and 2 qubits: all ordered pairs, both parameter
+    # variants, in both tiers
     tasks = []
     for n in (1, 2):
         P = L.placed_ops(n, keys)
-        tasks += [('rt2', n, i, excluded, True, seed) for i in range(len(P))]
+        tasks += [('rt2', n, i, excluded, True, seed, 'full')
+                  for i in range(len(P))]
     _stage(ctx, 'roundtrip-two-ops-1-2-qubits', tasks, total)
-    P = L.placed_ops(3, keys)
-    tasks = [('rt2', 3, i, excluded, not quick, seed) for i in range(len(P))]
+    # 3 qubits: quick pairs every gate (second) with the reduced alphabet
+    # (first); thorough runs all ordered pairs with both parameter variants
+    if quick:
+        red = [k for k in W.REDUCED_RT if k not in excluded]
+        P = L.placed_ops(3, red)
+        tasks = [('rt2', 3, i, excluded, False, seed, 'reduced')
+                 for i in range(len(P))]
+    else:
+        P = L.placed_ops(3, keys)
+        tasks = [('rt2', 3, i, excluded, True, seed, 'full')
+                 for i in range(len(P))]
     _stage(ctx, 'roundtrip-two-ops-3-qubits', tasks, total,
            budget=None if quick else 240)
     if not quick:
@@ -216,7 +227,7 @@ def _run(ctx: Ctx, total: dict, libs: tuple) -> None:
     tasks = [('num',), ('misc',), ('shadow',), ('e01', FULL_LEAVES)]
     # depth-2 expressions whose left operand is a leaf ("2^-2", "2*(2+pi)",
     # "pi/sin(2)" ...) always complete; the rest runs under a time cap below
-    tasks += [('e2', leaves, ai, op, 0, 1) for ai in range(len(leaves))
+    tasks += [('e2', leaves, ai, op, 0, 1, None) for ai in range(len(leaves))
               for op in L.BINOPS]
     tasks += [('gd1', i, 16) for i in range(16)]
     for lay in W.LAYOUTS:
@@ -244,7 +255,10 @@ def _run(ctx: Ctx, total: dict, libs: tuple) -> None:
         _stage(ctx, 'programs-three-statements', tasks, total, budget=240)
 
     nO = len(L.operands(list(leaves)))
-    tasks = [('e2', leaves, ai, op, c, 3) for ai in range(len(leaves), nO)
+    # quick: both operands composite only over the core leaves {pi, 2}
+    core = QUICK_CORE if quick else None
+    tasks = [('e2', leaves, ai, op, c, 3, core)
+             for ai in range(len(leaves), nO)
              for op in L.BINOPS for c in range(3)]
     _stage(ctx, 'programs-expressions-depth-2', tasks, total,
            budget=None if quick else 240)
@@ -311,7 +325,11 @@ def _run(ctx: Ctx, total: dict, libs: tuple) -> None:
         'identity up to phase; program that Qiskit accepts and whose '
         'operator is not the identity up to phase. programs = program texts '
         '(and translator circuits) accepted by the independent '
-        'implementation and compared with it. Expression skip rule (stated '
+        'implementation and compared with it. Quick tier: depth-2 expression '
+        'texts over leaves {pi, 2, 1e-1} in which one operand is a leaf, plus '
+        'all depth-2 texts over {pi, 2}; three-qubit two-operation circuits '
+        'with the first operation from the reduced alphabet; the thorough '
+        'tier lifts both restrictions. Expression skip rule (stated '
         'per reason in skipped_by_rule): any intermediate value not finite '
         'or >1e6 in magnitude, division by |x|<1e-12, ln(x<=0), sqrt(x<0), '
         'negative base with non-integer exponent, 0 to a non-positive '
